@@ -59,7 +59,14 @@ def c19(ctx):
                 siz = _labels(seq, '.data_size')
                 if not acc or not typ:
                     continue
-                txt = ''.join(_texts(seq))
+                # (a result code starts a new unit: what is printed from there on is not part of the token,
+                # whichever routine loads it)
+                pieces = []
+                for piece in _texts(seq):
+                    if piece in ('OK', 'ERROR'):
+                        break
+                    pieces.append(piece)
+                txt = ''.join(pieces)
                 if '<' not in txt:
                     continue
                 tok = txt[txt.index('<'):]
@@ -101,6 +108,14 @@ def c19(ctx):
             if ('STATE_FORMAT_TEST_ARGS' in t.to or 'STATE_FORMAT_READ_ARGS' in t.to) and 'AFTER' not in t.to and t.to != t.frm:
                 ctx.check('order', cval(t.raw.mem.get(idxloc)) == 0, t.site(),
                           'formatting starts in %s with variable cursor %s instead of 0' % (short(t.to), t.raw.mem.get(idxloc)))
+                # ... and only for a command that has a first variable: the response lists var_num variables, not
+                # "whatever the table pointer points at"
+                cname = 'CMD' if which == 'cmd' else 'UCMD'
+                vn = Lin.atom(cname + '.var_num')
+                lo_ = max(t.raw.facts.lower(vn), t.post.facts.lower(vn))      # (the canonical name exists in the canonical post-state)
+                ctx.check('order', lo_ >= 1, t.site(),
+                          'formatting of the variable list starts in %s without var_num >= 1 being established (var_num may be %s): a command without variables is described with an entry it does not own'
+                          % (short(t.to), lo_))
     ctx.extra['distinct_tokens'] = len(seen_tokens)
     if len(seen_tokens) < 20:
         raise AnalysisBroken('only %d (type, access) combinations of the TEST token were extracted' % len(seen_tokens))
